@@ -239,3 +239,21 @@ Example ex_bytes_run :
 Proof. vm_compute. reflexivity. Qed.
 Example ex_bytes_premises : wf_msg ex_msg0 = true /\ run_ok (s_le ex_msg0) (s_fields ex_msg0) ex_edits.
 Proof. split; [vm_compute; reflexivity|]. cbn [run_ok]. repeat split; try (vm_compute; reflexivity); try (cbv; intros X; discriminate X). Qed.
+
+(* ---- C12 + C01 composed: what the receiver sees of an edited message -----------------------------------------
+   Any sequence of header edits (set / delete / strip: what the bus does when it stamps the sender and
+   forwards) on any message m, provided the edited message m' is well-formed: its serialisation followed by any
+   bytes is accepted by the loader model, the queued header ++ body are exactly the canonical bytes of m', the
+   body bytes are exactly the body bytes of the ORIGINAL m, and the DBusTypeReader model reads exactly m's
+   original values with m's original signature.  Non-vacuity: ex_edited_wf above (edits include SENDER). *)
+From DV Require Import Wire.Message Wire.Reader Proofs.LoaderComplete Proofs.EndToEnd.
+Theorem C12_edited_message_received : forall m es rest avail,
+  let m' := fold_left apply_edit es m in
+  wf_msg m' = true -> spec_nfds (s_fields m') <= avail ->
+  exists msg,
+    load_message (s_le m) (m_flen m') (m_hlen m') (m_blen m') avail (spec_encode_message m' ++ rest) = inl msg /\
+    m_header msg ++ m_body msg = spec_encode_message m' /\
+    m_body msg = encs (s_le m) (s_body m) 0 /\
+    read_all (s_le m) (s_sig m) (m_body msg) = inl (s_body m).
+Proof. exact edited_message_received. Qed.
+Print Assumptions C12_edited_message_received.
